@@ -384,6 +384,7 @@ theorem inv_split (c : Circuit) (trim : Bool) (rs : List Circuit) (h : c.split t
     have hall : ∀ x ∈ cs, x.Inv := by
       refine foldlM_inv (fun (l : List Circuit) => ∀ x ∈ l, x.Inv) _ ?_ c.gates _ cs ?_ hcs
       · intro b g b' hb hstep
+        unfold Circuit.placeGate at hstep
         split at hstep
         · split at hstep
           · rename_i i hi ci hci
